@@ -40,7 +40,7 @@ impl ReplayFile {
             "fault_trace": self.fault_trace,
             "original_steps": self.original_steps,
             "aux_pick": format!("{:016x}", self.pick),
-            "format": "explicit delivered schedule: T=set wall clock (ms), F=frame (hex), X=restart soft|hard",
+            "format": "explicit delivered schedule: T=set wall clock (ms), M=set elapsed monotonic time (us), F=frame (hex), X=restart soft|hard",
         })
     }
     pub fn from_json(v: &Value) -> Option<ReplayFile> {
@@ -138,6 +138,7 @@ pub fn sample_history(h: &History, max: usize) -> Vec<String> {
         }
         match &r.step {
             Step::Clock(ms) => out.push(format!("T {}", ms)),
+            Step::Mono(us) => out.push(format!("M {}", us)),
             Step::Soft => out.push("X soft".into()),
             Step::Hard => out.push("X hard".into()),
             Step::Frame(f) => {
